@@ -11,6 +11,7 @@ import WD.Proofs.Restart
 import WD.Proofs.Restart.Helpers
 import WD.Proofs.Restart.Spawns
 import WD.Proofs.Restart.Debs
+import WD.Proofs.Restart.Progress
 import WD.Proofs.Shell
 namespace WD.C18
 open WD.Deb WD.ProofsDeb
@@ -162,6 +163,16 @@ example :
     (s.hist.any fun o => match o with | .stopRet _ _ => true | _ => false) = true ∧ s.threads.length = 2 ∧
     (s.threads.map (·.pc)) = [.done, .done] := by
   decide +kernel
+
+/-- no deadlock on the two locks: in every reachable state, whenever a thread is waiting for `_restart_lock` (start(), a
+    restart, stop()) or for `_stopping_lock` (start(), stop(), `_stop_process`), some thread can take a step, or the
+    holder of `_restart_lock` is asleep in the kill loop with its 0.25 s deadline pending - nobody waits for a lock whose
+    holder is itself blocked for good -/
+theorem no_deadlock_on_locks (j : Nat) (t : Rst.Thread)
+    (ht : (Rst.run (Rst.init cfg lifetimes rscripts) ras).threads[j]? = some t)
+    (hw : ProofsRst.waitsS t.pc = true ∨ ProofsRst.waitsR t.pc = true) :
+    ProofsRst.CanMove (Rst.run (Rst.init cfg lifetimes rscripts) ras) :=
+  ProofsRst.lock_wait_progress cfg lifetimes rscripts ras j t ht hw
 
 /-- a watcher that has been told to stop is not blocked in its poll loop: it can take its next step, and that step ends it -/
 theorem stopped_watcher_ends (s : Rst.State) (j : Nat) (th : Rst.Thread) (hth : s.threads[j]? = some th)
